@@ -17,6 +17,14 @@ TOL = 2e-7
 BUDGET = 20000  # slower flux calculations are C10's business; here the pair is simply not judged
 
 
+def eqv(a, b, rel, abs_=0.0):
+    """twin equality: both NaN counts as equal (the same state gave the same non-number on both sides)."""
+    a, b = float(a), float(b)
+    if math.isnan(a) or math.isnan(b):
+        return math.isnan(a) and math.isnan(b)
+    return core.close(a, b, rel, abs_)
+
+
 def tol_for(mode):
     return 1e-10 if mode == "vac" else TOL
 
@@ -49,17 +57,18 @@ def judge_point(case):
     def cmp_pair(a, b):
         a, b = (float(a[0]), float(a[1])), (float(b[0]), float(b[1]))
         tot = abs(a[0]) + abs(a[1])
-        return None if all(core.close(a[i], b[i], tol, 1e-9 * tot) for i in (0, 1)) else (a, b)
+        tot = tot if math.isfinite(tot) else 0.0
+        return None if all(eqv(a[i], b[i], tol, 1e-9 * tot) for i in (0, 1)) else (a, b)
 
     def cmp_scalar(a, b, k=1.0):
         a, b = float(a), float(b)
-        return None if core.close(a, b, tol * k) else (a, b)
+        return None if eqv(a, b, tol * k) else (a, b)
 
     both("solver", lambda c: pv.calculate_partial_fluxes(feed_temperature=t, composition=c, precision=PREC, calculation_type=model, **kw), cmp_pair)
     both("from_permeate_helper", lambda c: pv.get_partial_fluxes_from_permeate_composition(
         first_component_permeance=U.Permeance(value=P[0]), second_component_permeance=U.Permeance(value=P[1]),
         permeate_composition=U.Composition(p=0.9, type="weight"), feed_composition=c, feed_temperature=t, calculation_type=model, **kw),
-        lambda a, b: None if all(core.close(float(a[i]), float(b[i]), 1e-10, 1e-12 * (abs(float(a[0])) + abs(float(a[1])))) for i in (0, 1)) else (a, b))
+        lambda a, b: None if all(eqv(a[i], b[i], 1e-10, 1e-12 * (abs(float(a[0])) + (abs(float(a[1])) if math.isfinite(float(a[1])) else 0.0))) for i in (0, 1)) else (a, b))
     both("permeate_composition", lambda c: pv.calculate_permeate_composition(feed_temperature=t, composition=c, precision=PREC, calculation_type=model, **kw).p, cmp_scalar)
     both("separation_factor", lambda c: pv.calculate_separation_factor(feed_temperature=t, composition=c, precision=PREC, calculation_type=model, **kw),
          lambda a, b: cmp_scalar(a, b, 20.0))
@@ -79,16 +88,16 @@ def judge_point(case):
             for name, k in (("get_separation_factor", 20.0), ("get_psi", 20.0)):
                 u, w = float(getattr(a, name)[i]), float(getattr(b, name)[i])
                 ya = float(a.permeate_composition[i].p)
-                if 1e-6 < ya < 1 - 1e-6 and not core.close(u, w, tol * k, tol * k * abs(sum(a.partial_fluxes[i]))):
+                if 1e-6 < ya < 1 - 1e-6 and not eqv(u, w, tol * k, tol * k * abs(sum(a.partial_fluxes[i]))):
                     return ("%s %r" % (name, u), "%s %r" % (name, w))
             if model == "NRTL":
                 pa_, pb_ = a.permeances[i], b.permeances[i]
                 ga, gb = a.get_permeances[i], b.get_permeances[i]
                 for j in (0, 1):
-                    if not core.close(float(pa_[j].value), float(pb_[j].value), tol * 100) or not core.close(float(ga[j].value), float(gb[j].value), tol * 100):
+                    if not eqv(float(pa_[j].value), float(pb_[j].value), tol * 100) or not eqv(float(ga[j].value), float(gb[j].value), tol * 100):
                         return ("permeances %r" % ((pa_[0].value, pa_[1].value),), "permeances %r" % ((pb_[0].value, pb_[1].value),))
                 (su, u), (sw, w) = core.call(lambda: float(a.get_selectivity[i])), core.call(lambda: float(b.get_selectivity[i]))
-                if su == "ok" and sw == "ok" and not core.close(u, w, tol * 300):
+                if su == "ok" and sw == "ok" and not eqv(u, w, tol * 300):
                     return ("selectivity %r" % u, "selectivity %r" % w)
         return None
 
@@ -102,7 +111,7 @@ def judge_point(case):
 
     def cmp_hand(a, b):
         for j in (0, 1):
-            if not core.close(float(a.permeances[0][j].value), float(b.permeances[0][j].value), 1e-10):
+            if not eqv(float(a.permeances[0][j].value), float(b.permeances[0][j].value), 1e-10):
                 return ("permeances %r" % ((a.permeances[0][0].value, a.permeances[0][1].value),), "permeances %r" % ((b.permeances[0][0].value, b.permeances[0][1].value),))
         for name in ("get_separation_factor", "get_psi", "get_selectivity"):
             (su, u), (sw, w) = core.call(lambda: float(getattr(a, name)[0])), core.call(lambda: float(getattr(b, name)[0]))
@@ -110,7 +119,7 @@ def judge_point(case):
                 if su != sw:
                     return ("%s %r" % (name, u), "%s %r" % (name, w))
                 continue
-            if not core.close(u, w, 1e-9):
+            if not eqv(u, w, 1e-9):
                 return ("%s %r" % (name, u), "%s %r" % (name, w))
         return None
 
@@ -134,7 +143,7 @@ def judge_measurements(case):
             continue
         for i in range(len(a)):
             n += 1
-            if not (core.close(a[i].x, b[i].x, 1e-12) and core.bit_eq(a[i].t, b[i].t) and core.close(a[i].p, b[i].p, 1e-12)):
+            if not (eqv(a[i].x, b[i].x, 1e-12) and core.bit_eq(a[i].t, b[i].t) and eqv(a[i].p, b[i].p, 1e-12)):
                 v.append(core.viol("C07/measurements/" + name, "point %d: (x=%r, t=%r, p=%r) from the mass-fraction set, (x=%r, t=%r, p=%r) from the molar set" % (
                     i, a[i].x, a[i].t, a[i].p, b[i].x, b[i].t, b[i].p)))
                 break
@@ -163,7 +172,7 @@ def judge_process(case):
         pairs = [("feed mass", ta["m"][k], tb["m"][k]), ("temperature", ta["T"][k], tb["T"][k]), ("feed fraction", ta["x"][k], tb["x"][k]),
                  ("permeate fraction", ta["y"][k], tb["y"][k]), ("flux 1", ta["J"][k][0], tb["J"][k][0]), ("flux 2", ta["J"][k][1], tb["J"][k][1]),
                  ("permeance 1", ta["P"][k][0], tb["P"][k][0]), ("permeance 2", ta["P"][k][1], tb["P"][k][1]), ("evaporation heat", ta["Q"][k], tb["Q"][k])]
-        bad = [(nm, u, w) for nm, u, w in pairs if not core.close(u, w, tol, 1e-9 * tol)]
+        bad = [(nm, u, w) for nm, u, w in pairs if not eqv(u, w, tol, 1e-9 * tol)]
         if bad:
             nm, u, w = bad[0]
             v.append(core.viol("C07/process/" + case["kind"], "%s at step %d: %r with a mass-fraction initial feed, %r with the equivalent mole fraction" % (nm, k, u, w), step=k))
@@ -193,12 +202,12 @@ def judge_nonideal_curve(case):
     for i in range(len(a.partial_fluxes)):
         fa, fb = a.partial_fluxes[i], b.partial_fluxes[i]
         tot = abs(float(fa[0])) + abs(float(fa[1]))
-        if not all(core.close(float(fa[j]), float(fb[j]), tol, 1e-9 * tot) for j in (0, 1)) or not all(
-                core.close(float(a.permeances[i][j].value), float(b.permeances[i][j].value), 1e-10) for j in (0, 1)):
+        if not all(eqv(float(fa[j]), float(fb[j]), tol, 1e-9 * tot) for j in (0, 1)) or not all(
+                eqv(float(a.permeances[i][j].value), float(b.permeances[i][j].value), 1e-10) for j in (0, 1)):
             v.append(core.viol("C07/nonideal_curve", "point %d: fluxes %r / permeances %r with a mass-fraction initial composition, %r / %r with the equivalent mole fraction" % (
                 i, fa, (a.permeances[i][0].value, a.permeances[i][1].value), fb, (b.permeances[i][0].value, b.permeances[i][1].value))))
             break
-        if not core.close(U.mass_fraction(a.feed_compositions[i], mix), U.mass_fraction(b.feed_compositions[i], mix), 1e-10):
+        if not eqv(U.mass_fraction(a.feed_compositions[i], mix), U.mass_fraction(b.feed_compositions[i], mix), 1e-10):
             v.append(core.viol("C07/nonideal_curve", "point %d is at a different composition" % i))
             break
     return core.result("judged", digest=core.digest_of(case), viol=v, states=2 * len(a.partial_fluxes), transitions=2 * (len(a.partial_fluxes) - 1), traces=2)
